@@ -32,7 +32,7 @@ STAGE = st.fixed_dictionaries({
     "result": st.sampled_from(["ok", "ok", "ok", "ok", "error", "fail", "skip"]),
     "never": st.sampled_from([False] * 9 + [True]),
     "leave_call": st.one_of(st.none(), st.none(), st.none(), st.sampled_from([0, 1, 2, 5, 9])),
-    "log_err": st.sampled_from([False] * 7 + [True]),
+    "log_err": st.sampled_from(["no"] * 7 + ["one", "two_flush_one", "one_flush_it"]),
     "drop_failed": st.sampled_from([False] * 7 + [True]),
 })
 CASE = st.fixed_dictionaries({
@@ -77,7 +77,7 @@ def model(spec):
         log.append((name, t))
         if s["leave_call"] is not None:
             leftovers.append(t + s["leave_call"])
-        if s["log_err"]:
+        if s["log_err"] in ("one", "two_flush_one"):      # an error logged to Twisted and not flushed
             bad.add("error")
         if s["drop_failed"]:
             bad.add("error")
@@ -131,7 +131,7 @@ def _quiet_twisted():
 def run_case(spec):
     _quiet_twisted()
     import testtools
-    from testtools.twistedsupport import AsynchronousDeferredRunTest, AsynchronousDeferredRunTestForBrokenTwisted
+    from testtools.twistedsupport import AsynchronousDeferredRunTest, AsynchronousDeferredRunTestForBrokenTwisted, flush_logged_errors
     from twisted.internet import defer
     from twisted.python import log as tlog
     from twisted.logger import globalLogPublisher
@@ -148,8 +148,15 @@ def run_case(spec):
             stage_log.append((name, reactor.seconds()))
             if s["leave_call"] is not None:
                 reactor.callLater(s["leave_call"], lambda: None)
-            if s["log_err"]:
+            if s["log_err"] == "one":
                 tlog.err(RuntimeError("logged-MARK"))
+            elif s["log_err"] == "two_flush_one":
+                tlog.err(ValueError("logged-MARK-flushed"))
+                tlog.err(KeyError("logged-MARK-kept"))
+                flush_logged_errors(ValueError)
+            elif s["log_err"] == "one_flush_it":
+                tlog.err(ValueError("logged-MARK-flushed"))
+                flush_logged_errors(ValueError)
             if s["drop_failed"]:
                 defer.fail(RuntimeError("dropped-MARK"))
 
